@@ -31,7 +31,7 @@ FAMILIES = {
     "affinity1": fam(Keys=[1], States=["READY", "TF", "SHUTDOWN"], AVs=[1], Methods=["BIND", "BOUND", "UNBIND"]),
     "growth": fam(CfgMin=1, CfgMax=3, CfgWm=1, Keys=[1], AVs=[1], Methods=["PLAIN"], States=["CONNECTING", "READY", "TF", "SHUTDOWN"],
                   MaxConn=4, MaxCalls=4, StalePick=2),
-    "growth2": fam(CfgMin=2, CfgMax=2, CfgWm=2, Keys=[1], AVs=[1], Methods=["PLAIN", "BIND"], States=["READY", "TF"], MaxCalls=5),
+    "growth2": fam(CfgMin=2, CfgMax=2, CfgWm=2, Keys=[1], AVs=[1], Methods=["PLAIN", "BIND"], States=["READY", "TF", "SHUTDOWN"], MaxCalls=5),
     # connectivity aggregation: every report sequence, unknown connections
     "states": fam(CfgMin=2, CfgMax=2, Keys=[1], AVs=[1], Methods=["PLAIN"], Outs=["OK"], UseUnknown=True, MaxCalls=1, StalePick=3),
     # unresponsive detection and refresh
